@@ -70,3 +70,14 @@ claim(
     "kappa > 1e6 inconclusive; non-converged stencils counted inconclusive, never violations.",
     "Hypothesis PBT with numerical differentiation oracle",
 )
+claim(
+    "C17",
+    "Generated-input search over model matrices (tall / wide / square, dense, banded blur, sparse, repeated or zero rows and columns), "
+    "data and errors over six decades, parameter positions in 1-2 dimensions (duplicates allowed), SE/RQ/white/sum/change-point "
+    "priors, three mean functions: posterior mean and covariance against the data-space closed form (40-digit mpmath for sizes <= 10), "
+    "mean-only path against the same closed form, covariance symmetric / PSD / no larger than the prior, evidence against an independent "
+    "multivariate-normal log-density (scipy cross-check), evidence gradient against Richardson-controlled stencils.",
+    "Tolerance scaled by max(cond(I+KW), cond(AKA^T+S)); the full-path mean is allowed the covariance's rounding error times the data "
+    "vector A^T S^-1 (y - A m) (that product is how the result is documented to be formed); kappa > 1e9 inconclusive.",
+    "Hypothesis PBT with closed-form reference (mpmath) + numerical differentiation",
+)
